@@ -889,8 +889,13 @@ ROMAN_FIVES = ["v", "l", "d"]
 
 
 def format_int_roman(value: int) -> str:
-    """Format a number as lowercase Roman numerals."""
-    assert 0 < value < 4000
+    """Format a number as lowercase Roman numerals.
+
+    There is no numeral above "m": thousands are written as repeated "m"
+    (4000 -> "mmmm"), the way PDF viewers label such pages.
+    """
+    assert value > 0
+    thousands, value = divmod(value, 1000)
     result: List[str] = []
     index = 0
 
@@ -910,6 +915,7 @@ def format_int_roman(value: int) -> str:
             result.insert(1 if over_five else 0, ROMAN_ONES[index] * remainder)
         index += 1
 
+    result.insert(0, ROMAN_ONES[3] * thousands)
     return "".join(result)
 
 
